@@ -142,7 +142,7 @@ func (h ProtectedHeader) SetCWTClaims(claims CWTClaims) (CWTClaims, error) {
 
 // Algorithm gets the algorithm value from the algorithm header.
 func (h ProtectedHeader) Algorithm() (Algorithm, error) {
-	value, ok := h[HeaderLabelAlgorithm]
+	value, ok := lookupLabel(h, HeaderLabelAlgorithm)
 	if !ok {
 		return AlgorithmReserved, ErrAlgorithmNotFound
 	}
@@ -174,7 +174,7 @@ func (h ProtectedHeader) Algorithm() (Algorithm, error) {
 // Notice: The COSE Hash Envelope API is EXPERIMENTAL and may be changed or
 // removed in a later release.
 func (h ProtectedHeader) PayloadHashAlgorithm() (Algorithm, error) {
-	value, ok := h[HeaderLabelPayloadHashAlgorithm]
+	value, ok := lookupLabel(h, HeaderLabelPayloadHashAlgorithm)
 	if !ok {
 		return AlgorithmReserved, ErrAlgorithmNotFound
 	}
@@ -201,7 +201,7 @@ func (h ProtectedHeader) PayloadHashAlgorithm() (Algorithm, error) {
 //
 // Reference: https://datatracker.ietf.org/doc/html/rfc8152#section-3.1
 func (h ProtectedHeader) Critical() ([]any, error) {
-	value, ok := h[HeaderLabelCritical]
+	value, ok := lookupLabel(h, HeaderLabelCritical)
 	if !ok {
 		return nil, nil
 	}
@@ -227,7 +227,7 @@ func ensureCritical(value any, headers map[any]any) error {
 		if !canInt(label) && !canTstr(label) {
 			return fmt.Errorf("require int / tstr type, got '%T': %v", label, label)
 		}
-		if _, ok := headers[label]; !ok {
+		if !hasLabel(headers, label) {
 			return fmt.Errorf("missing critical header: %v", label)
 		}
 	}
@@ -500,10 +500,35 @@ func (h *Headers) ensureIV() error {
 	return nil
 }
 
-// hasLabel returns true if h contains label.
+// hasLabel returns true if h contains label, whichever Go integer type spells
+// an integer label.
 func hasLabel(h map[any]any, label any) bool {
+	if normalized, ok := normalizeLabel(label); ok {
+		if l, isInt := normalized.(int64); isInt {
+			_, found := lookupLabel(h, l)
+			return found
+		}
+	}
 	_, ok := h[label]
 	return ok
+}
+
+// lookupLabel returns the value stored under an integer label. Labels of
+// in-memory headers may be spelt with any Go integer type, so a lookup by the
+// int64 constant alone would miss them.
+func lookupLabel(h map[any]any, label int64) (any, bool) {
+	if value, ok := h[label]; ok {
+		return value, true
+	}
+	for key, value := range h {
+		if _, isInt64 := key.(int64); isInt64 {
+			continue
+		}
+		if normalized, ok := normalizeLabel(key); ok && normalized == any(label) {
+			return value, true
+		}
+	}
+	return nil, false
 }
 
 // validateHeaderParameters validates all headers conform to the spec.
